@@ -51,11 +51,13 @@ def s7_fresh_lexer(chk: Check, proj: Project, m, f) -> bool:
         raise AnalysisError("parse_template: stock lexer construction / tokenize() / hand-over loop not found")
     loop = loops[0]
     inside = lambda n: any(a is loop for a in ancestors(n))  # noqa: E731
-    ok = all(inside(c) for c in lex) and all(inside(c) for c in tok)
     retarget = [s2 for s2 in stmts(f) if isinstance(s2, ast.Assign) and isinstance(s2.targets[0], ast.Attribute) and s2.targets[0].attr == "template_string"]
-    ok = ok and not retarget
-    chk.ob("S7", "util.template_parser:parse_template:fresh-lexer-per-round", m.loc((retarget or lex)[0]), ok,
-           "the stock lexer is constructed inside the hand-over loop from the remaining slice" if ok else
+    fresh = all(inside(c) for c in lex) and all(inside(c) for c in tok) and not retarget
+    # a re-used lexer object is harmless only if its one piece of state (`verbatim`) is explicitly (re)set in every round
+    reset = [s2 for s2 in stmts(f) if isinstance(s2, ast.Assign) and isinstance(s2.targets[0], ast.Attribute) and s2.targets[0].attr == "verbatim" and inside(s2) and all(s2.lineno < c.lineno for c in tok)]
+    ok = fresh or bool(reset)
+    chk.ob("S7", "util.template_parser:parse_template:lexer-state-defined-per-round", m.loc((retarget or lex)[0]), ok,
+           ("the stock lexer is constructed inside the hand-over loop from the remaining slice" if fresh else "the lexer object is re-used, but its `verbatim` state is assigned in every round before tokenize()") if ok else
            f"the stock lexer is created once and re-pointed (`{short(retarget[0]) if retarget else short(enclosing_stmt(lex[0]))}`): tokenize() leaves `verbatim` as it was at the END of the previous text, so after a hand-over inside/before an unterminated or oddly closed verbatim block all following tags are emitted as TEXT")
     # the one piece of lexer state that must survive the switch: the open {% verbatim %} block
     lv = next((norm(st.targets[0]) for st in stmts(f) if isinstance(st, ast.Assign) and st.value is lex[0] and isinstance(st.targets[0], ast.Name)), None)
@@ -175,13 +177,21 @@ def s1_s3(chk: Check, proj: Project, m, f) -> None:
     chk.rule("S3", "the next segment starts where the last emitted token ends")
     # segment origin: lower bound of the slice handed to the stock lexer
     lex = [c for c in calls(f) if last_attr(c.func) in ("DebugLexer", "Lexer")]
-    if len(lex) != 1 or not (lex[0].args and isinstance(lex[0].args[0], ast.Subscript) and isinstance(lex[0].args[0].slice, ast.Slice)):
-        raise AnalysisError("parse_template: stock lexer call on a text slice not found")
-    sl = lex[0].args[0].slice
+    # the text the stock lexer works on in a round: its constructor argument, or the slice it is re-pointed at
+    seg = None
+    if len(lex) == 1 and lex[0].args and isinstance(lex[0].args[0], ast.Subscript) and isinstance(lex[0].args[0].slice, ast.Slice):
+        seg = lex[0].args[0]
+    else:
+        rt = [s2.value for s2 in stmts(f) if isinstance(s2, ast.Assign) and isinstance(s2.targets[0], ast.Attribute) and s2.targets[0].attr == "template_string" and isinstance(s2.value, ast.Subscript) and isinstance(s2.value.slice, ast.Slice)]
+        if len(rt) == 1:
+            seg = rt[0]
+    if seg is None:
+        raise AnalysisError("parse_template: the text slice handed to the stock lexer was not found")
+    sl = seg.slice
     origin = norm(sl.lower) if sl.lower is not None else None
     if origin is None:
         raise AnalysisError("parse_template: lexer slice has no lower bound")
-    raw = norm(lex[0].args[0].value)
+    raw = norm(seg.value)
     # position shift
     pos = [s for s in stmts(f) if isinstance(s, ast.Assign) and norm(s.targets[0]).endswith(".position")]
     ok = bool(pos)
